@@ -12,6 +12,7 @@ import (
 
 	"github.com/hashicorp/go-hclog"
 	"google.golang.org/grpc"
+	"google.golang.org/protobuf/proto"
 
 	"github.com/hashicorp/consul-net-rpc/go-msgpack/codec"
 
@@ -21,6 +22,7 @@ import (
 	"github.com/hashicorp/consul/api"
 	raftstorage "github.com/hashicorp/consul/internal/storage/raft"
 	"github.com/hashicorp/consul/internal/verifrt"
+	"github.com/hashicorp/consul/proto/private/pbpeering"
 )
 
 // C02: restore(snapshot(S)) is indistinguishable from S. The real persisters
@@ -108,6 +110,88 @@ func vNative(name string, port int) *structs.RegisterRequest {
 		Service: &structs.NodeService{ID: name, Service: name, Port: port, Connect: structs.ServiceConnect{Native: true}}}
 }
 
+// vSnapshotRestore persists s through the real snapshot persisters and restores the stream into a fresh
+// store through the real restorer registry.
+func vSnapshotRestore(s *state.Store) *state.Store {
+	must := func(err error) {
+		if err != nil {
+			panic(err)
+		}
+	}
+	backend, berr := raftstorage.NewBackend(vRaftHandle{}, hclog.NewNullLogger())
+	must(berr)
+	storageSnap, serr := backend.Snapshot()
+	must(serr)
+	snap := &snapshot{state: s.Snapshot(), storageSnapshot: storageSnap}
+	sink := &vSink{}
+	must(snap.Persist(sink))
+	snap.Release()
+
+	restored := state.NewStateStore(nil)
+	restore := restored.Restore()
+	err := ReadSnapshot(&sink.buf, func(header *SnapshotHeader, msg structs.MessageType, dec *codec.Decoder) error {
+		if verifrt.Symbolic() && msg == structs.ServiceVirtualIPRequestType {
+			// cut (engine only): this restorer decodes through map[string]interface{} and
+			// mapstructure (reflection) to tolerate pre-1.13 snapshots; the ideal codec hands
+			// over the typed record directly. Native replays run the real restorer.
+			var vip state.ServiceVirtualIP
+			if err := dec.Decode(&vip); err != nil {
+				return err
+			}
+			return restore.ServiceVirtualIP(vip)
+		}
+		fn := restorers[msg]
+		if fn == nil {
+			return errors.New("no restorer registered for a persisted record type")
+		}
+		return fn(header, restore, dec)
+	})
+	verifrt.Assert("C02.restore.no-error", err == nil)
+	must(restore.Commit())
+
+	return restored
+}
+
+// vSameRows compares the rows of one table of the original and the restored store. Protobuf rows are
+// compared with proto.Equal natively (their internal caches are not content); under the engine the ideal
+// codec copies them whole.
+func vSameRows(table string, x, y []any) bool {
+	x, y = vNormalise(table, x), vNormalise(table, y)
+	if verifrt.Symbolic() {
+		return reflect.DeepEqual(x, y)
+	}
+	if len(x) != len(y) {
+		return false
+	}
+	for i := range x {
+		px, ok1 := x[i].(proto.Message)
+		py, ok2 := y[i].(proto.Message)
+		if ok1 && ok2 {
+			if !proto.Equal(px, py) {
+				return false
+			}
+		} else if !reflect.DeepEqual(x[i], y[i]) {
+			return false
+		}
+	}
+	return true
+}
+
+func vAssertSameTables(s, restored *state.Store) {
+	a, b := vAllTables(s), vAllTables(restored)
+	for table, rows := range a {
+		if !verifrt.Symbolic() && !vSameRows(table, rows, b[table]) {
+			fmt.Printf("TABLE %s differs:\n  original: %+v\n  restored: %+v\n", table, vNormalise(table, rows), vNormalise(table, b[table]))
+		}
+		verifrt.Assert("C02.table-content-equal."+table, vSameRows(table, rows, b[table]))
+	}
+	for table, rows := range b {
+		if _, ok := a[table]; !ok {
+			verifrt.Assert("C02.no-extra-rows."+table, len(rows) == 0)
+		}
+	}
+}
+
 func VerifC02_SnapshotRestore() {
 	netutil.GetAgentBindAddrFunc = netutil.GetMockGetAgentBindAddrFunc("0.0.0.0")
 	if verifrt.Symbolic() {
@@ -169,50 +253,8 @@ func VerifC02_SnapshotRestore() {
 		must(s.AutopilotSetConfig(tick(), &structs.AutopilotConfig{MaxTrailingLogs: verifrt.U64("autopilot.trailing")}))
 	}
 
-	// snapshot and restore through the real persisters / restorers
-	backend, berr := raftstorage.NewBackend(vRaftHandle{}, hclog.NewNullLogger())
-	must(berr)
-	storageSnap, serr := backend.Snapshot()
-	must(serr)
-	snap := &snapshot{state: s.Snapshot(), storageSnapshot: storageSnap}
-	sink := &vSink{}
-	must(snap.Persist(sink))
-	snap.Release()
-
-	restored := state.NewStateStore(nil)
-	restore := restored.Restore()
-	err := ReadSnapshot(&sink.buf, func(header *SnapshotHeader, msg structs.MessageType, dec *codec.Decoder) error {
-		if verifrt.Symbolic() && msg == structs.ServiceVirtualIPRequestType {
-			// cut (engine only): this restorer decodes through map[string]interface{} and
-			// mapstructure (reflection) to tolerate pre-1.13 snapshots; the ideal codec hands
-			// over the typed record directly. Native replays run the real restorer.
-			var vip state.ServiceVirtualIP
-			if err := dec.Decode(&vip); err != nil {
-				return err
-			}
-			return restore.ServiceVirtualIP(vip)
-		}
-		fn := restorers[msg]
-		if fn == nil {
-			return errors.New("no restorer registered for a persisted record type")
-		}
-		return fn(header, restore, dec)
-	})
-	verifrt.Assert("C02.restore.no-error", err == nil)
-	must(restore.Commit())
-
-	a, b := vAllTables(s), vAllTables(restored)
-	for table, rows := range a {
-		if !verifrt.Symbolic() && !reflect.DeepEqual(vNormalise(table, rows), vNormalise(table, b[table])) {
-			fmt.Printf("TABLE %s differs:\n  original: %+v\n  restored: %+v\n", table, vNormalise(table, rows), vNormalise(table, b[table]))
-		}
-		verifrt.Assert("C02.table-content-equal."+table, reflect.DeepEqual(vNormalise(table, rows), vNormalise(table, b[table])))
-	}
-	for table, rows := range b {
-		if _, ok := a[table]; !ok {
-			verifrt.Assert("C02.no-extra-rows."+table, len(rows) == 0)
-		}
-	}
+	restored := vSnapshotRestore(s)
+	vAssertSameTables(s, restored)
 	// continuation: the same further command gives the same result on both
 	idx := next + 5
 	e1 := s.EnsureRegistration(idx, vNative("api", 9090))
@@ -220,5 +262,70 @@ func VerifC02_SnapshotRestore() {
 	v1, _ := s.VirtualIPForService(structs.PeeredServiceName{ServiceName: structs.NewServiceName("api", nil)})
 	v2, _ := restored.VirtualIPForService(structs.PeeredServiceName{ServiceName: structs.NewServiceName("api", nil)})
 	verifrt.Assert("C02.continuation-agrees", (e1 == nil) == (e2 == nil) && v1 == v2)
+	verifrt.Reached("end")
+}
+
+// Peerings and their secrets: a peering at any stage of (re-)establishment comes back with the same
+// rows in every table (including the table that tracks which secret UUIDs are in use), and the same
+// further secret operations succeed or fail alike on both stores.
+func VerifC02_PeeringRestore() {
+	if verifrt.Symbolic() {
+		vInstallIdealCodec(&vTape{})
+	}
+	const (
+		peerID = "1fabcd52-1d46-49b0-b1d8-71559aee47f5"
+		est1   = "baaeea83-8419-4aa8-ac89-14e7246a3d2f"
+		strm1  = "0b7812d4-32d9-4e54-b1b3-4d97084982a0"
+		est2   = "389bbcdf-1c31-47d6-ae96-f2a3f4c45f84"
+		strm2  = "d7b0b2a5-6f2c-4f7e-9f43-0f5f0c1f2a11"
+	)
+	generate := func(est string) *pbpeering.SecretsWriteRequest {
+		return &pbpeering.SecretsWriteRequest{PeerID: peerID, Request: &pbpeering.SecretsWriteRequest_GenerateToken{
+			GenerateToken: &pbpeering.SecretsWriteRequest_GenerateTokenRequest{EstablishmentSecret: est}}}
+	}
+	exchange := func(est, pending string) *pbpeering.SecretsWriteRequest {
+		return &pbpeering.SecretsWriteRequest{PeerID: peerID, Request: &pbpeering.SecretsWriteRequest_ExchangeSecret{
+			ExchangeSecret: &pbpeering.SecretsWriteRequest_ExchangeSecretRequest{EstablishmentSecret: est, PendingStreamSecret: pending}}}
+	}
+	promote := func(pending string) *pbpeering.SecretsWriteRequest {
+		return &pbpeering.SecretsWriteRequest{PeerID: peerID, Request: &pbpeering.SecretsWriteRequest_PromotePending{
+			PromotePending: &pbpeering.SecretsWriteRequest_PromotePendingRequest{ActiveStreamSecret: pending}}}
+	}
+	history := []*pbpeering.SecretsWriteRequest{generate(est1), exchange(est1, strm1), promote(strm1), generate(est2), exchange(est2, strm2), promote(strm2)}
+
+	s := state.NewStateStore(nil)
+	next := uint64(0)
+	tick := func() uint64 {
+		n := verifrt.U64("index")
+		verifrt.Assume(n > next && n < 1<<40)
+		next = n
+		return next
+	}
+	must := func(err error) {
+		if err != nil {
+			panic(err)
+		}
+	}
+	must(s.PeeringWrite(tick(), &pbpeering.PeeringWriteRequest{Peering: &pbpeering.Peering{ID: peerID, Name: "example"}}))
+	// the snapshot is taken after any prefix of the establishment history
+	cut := verifrt.Choice("cut", len(history)+1)
+	for _, req := range history[:cut] {
+		must(s.PeeringSecretsWrite(tick(), req))
+	}
+	restored := vSnapshotRestore(s)
+	vAssertSameTables(s, restored)
+	// continuation: the rest of the history, then the peering is marked for deletion
+	for _, req := range history[cut:] {
+		idx := tick()
+		e1 := s.PeeringSecretsWrite(idx, req)
+		e2 := restored.PeeringSecretsWrite(idx, req)
+		verifrt.Assert("C02.peering.continuation-agrees", (e1 == nil) == (e2 == nil))
+	}
+	for _, id := range []string{est1, strm1, est2, strm2} {
+		f1, e1 := s.ValidateProposedPeeringSecretUUID(id)
+		f2, e2 := restored.ValidateProposedPeeringSecretUUID(id)
+		verifrt.Assert("C02.peering.secret-uuid-availability-agrees", f1 == f2 && (e1 == nil) == (e2 == nil))
+	}
+	vAssertSameTables(s, restored)
 	verifrt.Reached("end")
 }
